@@ -746,19 +746,12 @@ func SpecNsKey(key string) bool {
 	return SpecHasPrefix(key, "redis-gunyu-bisync:") || SpecHasPrefix(key, "redis-gunyu-checkpoint")
 }
 
-// SpecLower is strings.ToLower (uninterpreted); strings.Contains is keyspec.SpecContains.
-func SpecLower(s string) string { return s }
-
-//@ spec SpecLower abstract
+// strings.ToLower is keyspec.SpecLower (uninterpreted); strings.Contains is keyspec.SpecContains.
 
 //@ func strings.HasPrefix(s, prefix) (r)
 //@   trusted library contract (pure)
 //@   modifies nothing
 //@   ensures def: r == SpecHasPrefix(s, prefix)
-//@ func strings.ToLower(s) (r)
-//@   trusted library contract (pure), lower-casing uninterpreted
-//@   modifies nothing
-//@   ensures def: r == SpecLower(s)
 
 //@ func isBisyncNamespaceKey
 //@   arith int
@@ -766,7 +759,7 @@ func SpecLower(s string) string { return s }
 //@   modifies nothing
 //@   ensures reserved_namespace: result == SpecNsKey(key)
 
-//@ pred delLike(c string): SpecLower(c) == "del" || SpecLower(c) == "unlink"
+//@ pred delLike(c string): keyspec.SpecLower(c) == "del" || keyspec.SpecLower(c) == "unlink"
 
 //@ func touchesBisyncNamespace
 //@   arith int
@@ -795,10 +788,10 @@ func SpecLower(s string) string { return s }
 //@   arith int
 //@   properties C13
 //@   modifies nothing
-//@   ensures marker_is_a_namespace_set: result <==> SpecLower(cmd.Cmd) == "set" && len(cmd.Args) >= 2 && SpecHasPrefix(string(cmd.Args[0]), "redis-gunyu-bisync:") && keyspec.SpecContains(string(cmd.Args[0]), ":marker:{")
+//@   ensures marker_is_a_namespace_set: result <==> keyspec.SpecLower(cmd.Cmd) == "set" && len(cmd.Args) >= 2 && SpecHasPrefix(string(cmd.Args[0]), "redis-gunyu-bisync:") && keyspec.SpecContains(string(cmd.Args[0]), ":marker:{")
 
 //@ pred markerKey(k string): SpecHasPrefix(k, "redis-gunyu-bisync:") && keyspec.SpecContains(k, ":marker:{")
-//@ pred markerSet(c bisyncAofCommand): SpecLower(c.Cmd) == "set" && len(c.Args) >= 2 && markerKey(string(c.Args[0]))
+//@ pred markerSet(c bisyncAofCommand): keyspec.SpecLower(c.Cmd) == "set" && len(c.Args) >= 2 && markerKey(string(c.Args[0]))
 //@ pred markerExpiry(c bisyncAofCommand): delLike(c.Cmd) && len(c.Args) == 1 && markerKey(string(c.Args[0]))
 //@ func isBisyncMarkerExpiry
 //@   arith int
@@ -833,7 +826,7 @@ func SpecLower(s string) string { return s }
 //@   ensures mirrored_recognised_after_its_expired_marker_was_removed: len(cmds) >= 2 && markerExpiry(cmds[0]) && markerSet(cmds[1]) ==> result
 //@   loop 1:
 //@     invariant only_removals_of_expired_markers_so_far: 0 - 1 <= rangeindex && rangeindex < len(cmds) && (forall j int :: 0 <= j && j <= rangeindex ==> markerExpiry(cmds[j]) && !markerSet(cmds[j]))
-//@   ensures mirrored_recognised: len(cmds) > 0 && SpecLower(cmds[0].Cmd) == "set" && len(cmds[0].Args) >= 2 && SpecHasPrefix(string(cmds[0].Args[0]), "redis-gunyu-bisync:") && keyspec.SpecContains(string(cmds[0].Args[0]), ":marker:{") ==> result
+//@   ensures mirrored_recognised: len(cmds) > 0 && keyspec.SpecLower(cmds[0].Cmd) == "set" && len(cmds[0].Args) >= 2 && SpecHasPrefix(string(cmds[0].Args[0]), "redis-gunyu-bisync:") && keyspec.SpecContains(string(cmds[0].Args[0]), ":marker:{") ==> result
 
 // ---- bidirectional sync: the replay-unit parser loses no foreign command (C13) -----------
 //   accepted     commands that passed the output filters and became a bisyncAofCommand
